@@ -1,5 +1,5 @@
 #!/bin/bash
-# usage: tools/seedrun.sh <property-id> <n> [seed-dir]
+# usage: tools/seedrun.sh <property-id> <n> [seed-dir [store-as-n]]
 # Confirms a seeded change written by an independent sub-agent (SEED/change<n>.diff + demo<n>_test.go + note<n>.md):
 #   1. applies it to a fresh scratch worktree of /repo's HEAD, builds, runs the repository's tests (must pass),
 #   2. runs the demonstration with the change (must fail) and without it (must pass),
@@ -7,9 +7,10 @@
 #   4. stores patch, demonstration and meta.json under /verif/seeded/<id>-<n>/.
 # Nothing is ever applied to /repo itself here and the scratch worktree is removed at the end.
 PID=$1; N=$2; SRC=${3:-/tmp/seed-$PID/_SEED}; [ -d $SRC ] || SRC=/tmp/seed-$PID/SEED
+OUTN=${4:-$N}   # number under which the change is stored (second-round changes are stored as 4..6)
 export GOFLAGS=-mod=mod GOPROXY=off GOSUMDB=off GOTOOLCHAIN=local
-WT=/tmp/seedcheck-$PID-$N
-OUT=/verif/seeded/$PID-$N
+WT=/tmp/seedcheck-$PID-$OUTN
+OUT=/verif/seeded/$PID-$OUTN
 rm -rf $WT; git -C /repo worktree prune; git -C /repo worktree add -q $WT HEAD || exit 9
 cleanup() { git -C /repo worktree remove --force $WT 2>/dev/null; }
 trap cleanup EXIT
@@ -50,7 +51,7 @@ if $confirmed; then
   cp $DIFF $OUT/patch.diff; cp $DEMO $OUT/demo_test.go; [ -f $SRC/note$N.md ] && cp $SRC/note$N.md $OUT/note.md
   viol=$(grep -m1 "^VIOLATION" /tmp/seed.$$.check)
   prev=$(cat $OUT/meta.json 2>/dev/null)
-  python3 - "$PID" "$N" "$changed" "$rc" "$viol" "$place" "$prev" "$gen_rc" > $OUT/meta.json.new <<'PY'
+  python3 - "$PID" "$OUTN" "$changed" "$rc" "$viol" "$place" "$prev" "$gen_rc" > $OUT/meta.json.new <<'PY'
 import json, sys, datetime
 pid, n, changed, rc, viol, place, prev, gen_rc = sys.argv[1:9]
 keep = {}
